@@ -253,7 +253,7 @@ def c09_cases():
     return out
 
 
-@family("C09/window", c09_cases(), funcs=BUILDER, props=["C09"], kind="P", timeout_ms=30000)
+@family("C09/window", c09_cases(), funcs=BUILDER, props=["C09", "C10"], kind="P", timeout_ms=30000)
 def _(E, case):
     letter, what = case
     pf = E.choice("prefix", ["empty", "M", "MQ", "MLZ"])
